@@ -2,6 +2,7 @@ import Casket.Proofs.AutoHTTPS
 import Casket.Proofs.AutoHTTPSRedirect
 import Casket.Proofs.AutoHTTPSSites
 import Casket.Proofs.AutoHTTPSAddr
+import Casket.Proofs.AutoHTTPSInspect
 /-
 C15 — Automatic HTTPS is applied exactly to qualifying sites, with redirects.
 
@@ -300,5 +301,49 @@ example : expectedKey { host := b!"Example.COM", port := some b!"80" } = b!"http
     expectedKey { scheme := b!"HTTPS", host := b!"example.com", port := some b!"8443" } = b!"https://example.com:8443" ∧
     expectedKey { host := b!"example.com", port := some b!"2015" } = b!"example.com:2015" ∧
     parseIP b!"Example.COM" = none ∧ parseIP b!"example.com" = none := by decide
+
+/-! ### the duplicate bookkeeping of InspectServerBlocks ("duplicate site key" / "duplicate site address")
+
+`inspect` is the model of the address loop of InspectServerBlocks (stream c15.inspect ties it to the real loader);
+`normalizedAddr` = standardizeAddress + Normalize, `Address.key` = Address.Key(), `Address.siteString` = Address.String() of the
+address with the default port filled in.  These statements are meant to be cited by C01. -/
+
+/-- ACCEPTED ⇔ every address standardises and no two of them have the same normalised key or the same site string; the configs
+created are the normalised addresses, in order. -/
+theorem C15_inspect_accepts_iff (ks : List Bytes) (as : List Address) :
+    inspect ks = .ok as ↔
+      ks.map normalizedAddr = as.map some ∧ (as.map Address.key).Nodup ∧ (as.map Address.siteString).Nodup :=
+  inspect_ok_iff ks as
+
+/-- What C01 needs: after InspectServerBlocks has accepted a Casketfile, the site keys are pairwise different, and so are the
+site addresses (scheme://host[:port]/path with defaults filled in); one config per address, in order. -/
+theorem C15_accepted_sites_distinct (ks : List Bytes) (as : List Address) (h : inspect ks = .ok as) :
+    as.length = ks.length ∧ (as.map Address.key).Nodup ∧ (as.map Address.siteString).Nodup := by
+  obtain ⟨hm, hk, hs⟩ := (inspect_ok_iff ks as).mp h
+  refine ⟨?_, hk, hs⟩
+  have := congrArg List.length hm
+  simpa using this.symm
+
+/-- REJECTED AS DUPLICATES ⇔ two normalised keys or two site strings are equal (for addresses that all standardise), and the
+error says which: `duplicate site key` only if two keys coincide, `duplicate site address` only if two site strings do. -/
+theorem C15_inspect_duplicates_iff (ks : List Bytes) (hall : ∀ k ∈ ks, (normalizedAddr k).isSome = true) :
+    ((∃ as, inspect ks = .ok as) ↔
+      ((normalizedAddrs ks).map Address.key).Nodup ∧ ((normalizedAddrs ks).map Address.siteString).Nodup) ∧
+    (∀ e, inspect ks = .error e →
+      (e = .dupKey ∧ ¬ ((normalizedAddrs ks).map Address.key).Nodup) ∨
+      (e = .dupAddr ∧ ¬ ((normalizedAddrs ks).map Address.siteString).Nodup)) :=
+  inspect_duplicates_iff ks hall
+
+example : (normalizedAddr b!"example.com").isSome = true ∧ (normalizedAddr b!"EXAMPLE.com:2015").isSome = true ∧
+    (normalizedAddrs [b!"example.com", b!"EXAMPLE.com:2015"]).map Address.key = [b!"example.com", b!"example.com:2015"] ∧
+    (normalizedAddrs [b!"example.com", b!"EXAMPLE.com:2015"]).map Address.siteString = [b!"http://example.com:2015", b!"http://example.com:2015"] := by decide
+
+/-- A defect of Address.Key outside C15's property, recorded because C01 builds on the keys: for a bracketed IPv6 literal the
+explicit port is not part of the key (the offset arithmetic of Key assumes the host text of the original), so two sites
+that differ only in port are rejected as `duplicate site key` (confirmed on the real loader: stream c15.inspect, `[::1]:81,[::1]:82`). -/
+theorem C15_key_ipv6_drops_port_witness :
+    (normalizedAddrs [b!"[::1]:81", b!"[::1]:82"]).map Address.key = [b!"::1", b!"::1"] ∧
+    (normalizedAddrs [b!"[::1]:81", b!"[::1]:82"]).map (·.port) = [b!"81", b!"82"] ∧
+    (match inspect [b!"[::1]:81", b!"[::1]:82"] with | .error .dupKey => true | _ => false) = true := by decide
 
 end Casket.Props.C15
